@@ -27,7 +27,7 @@ ASSUMPTIONS = [
     'GlobsMatcher is not covered: its decisions are made by regex::bytes::RegexSet (outside the encodable code)',
     'leaf paths: components are single printable-ASCII non-"/" bytes (component contents beyond equality do not influence the tree code)',
 ]
-BUDGET = {'quick': 240, 'thorough': 2400}
+BUDGET = {'quick': 900, 'thorough': 2400}
 F = 'lib/src/matchers.rs'
 
 def jobs(tier):
